@@ -235,3 +235,31 @@ def _(self: Union[SECTION(1, 1), SECTION(2, 1), SECTION(1, 2), SECTION(2, 2), SE
     modifies(counter._ctr, self._header.data, self._header.count)
     sample_with(lambda rnd: {"self": _mk_section(rnd), "dek": bytes(rnd.getrandbits(8) for _ in range(16)), "mac": bytes(rnd.getrandbits(8) for _ in range(32)),
                              "counter": Counter(bytes(rnd.getrandbits(8) for _ in range(16)), ctr_value=rnd.choice([0, 5, 0xFFFFFFFE]))})
+
+
+# ---- ERASE / MEM_ENABLE: the memory the command names survives export and parse ------------------------------------------------------------
+from spsdk.sbfile.sb2.commands import CmdMemEnable  # noqa: E402
+
+inline("spsdk.sbfile.sb2.commands:CmdErase.__init__", "spsdk.sbfile.sb2.commands:CmdErase.address", "spsdk.sbfile.sb2.commands:CmdErase.length",
+       "spsdk.sbfile.sb2.commands:CmdErase.flags", "spsdk.sbfile.sb2.commands:CmdErase.parse", "spsdk.sbfile.sb2.commands:CmdMemEnable.__init__",
+       "spsdk.sbfile.sb2.commands:CmdMemEnable.address", "spsdk.sbfile.sb2.commands:CmdMemEnable.size", "spsdk.sbfile.sb2.commands:CmdMemEnable.flags",
+       "spsdk.sbfile.sb2.commands:CmdMemEnable.parse", "spsdk.sbfile.sb2.commands:get_device_id", "spsdk.sbfile.sb2.commands:get_group_id",
+       "spsdk.sbfile.sb2.commands:get_memory_id")
+
+
+@lemma("erase-command-reaches-the-rom-and-parses-back")
+def _(address: U32, length: U32, mem_id: OneOf(0, 1, 9, 0x110, 0x120, 0x900)):
+    let(raw=CmdErase(address, length, 0, mem_id).export())
+    ensures(rom_header_fields(raw)[1:5] == (EnumCmdTag.ERASE.tag, (mem_id % 256) * 256 + (mem_id // 256 % 16) * 16, address, length) and raw[0] == rom_checksum(raw),
+            label="rom-sees-range-and-memory")
+    let(back=CmdErase.parse(raw))
+    ensures(back.address == address and back.length == length and back.mem_id == mem_id, label="parse-inverts-export")
+
+
+@lemma("memory-enable-command-reaches-the-rom-and-parses-back")
+def _(address: U32, size: U32, mem_id: OneOf(0, 1, 9, 0x110, 0x120, 0x900)):
+    let(raw=CmdMemEnable(address, size, mem_id).export())
+    ensures(rom_header_fields(raw)[1:5] == (EnumCmdTag.MEM_ENABLE.tag, (mem_id % 256) * 256 + (mem_id // 256 % 16) * 16, address, size) and raw[0] == rom_checksum(raw),
+            label="rom-sees-configuration-block-and-memory")
+    let(back=CmdMemEnable.parse(raw))
+    ensures(back.address == address and back.size == size and back.mem_id == mem_id, label="parse-inverts-export")
